@@ -1,6 +1,43 @@
-(* Properties_C02.v -- property theorems only (placeholder until the proofs land). *)
-From SC Require Import Base Cfg Comb ModStr ModMem.
+(* Properties_C02.v -- C02: no read outside what the caller declared readable
+   Only theorem statements, each closed by [exact <lemma>], with Print Assumptions beneath. *)
+From Coq Require Import List ZArith Lia Bool.
+From SC Require Import Base Wp Cfg Comb CombProofs CopySpec ModStr ModMem ProofsStr ProofsMem SpecStr SpecMem PropStr FnProps PropDefs.
 From SC.Gen Require Import Consts.
+Import ListNotations.
+Local Open Scope Z_scope.
+
+(* link from the wp statements below to executions: for every allocation-failure oracle,
+   the result and final memory of [run] satisfy the postcondition *)
+Theorem C02_wp_sound : forall (A : Type) (fail : nat -> bool) (p : prog A) st Q,
+  wp p (wm st) Q -> let '(a, st') := run fail p st in Q a (wm st').
+Proof. exact (@wp_run). Qed.
+Print Assumptions C02_wp_sound.
+
+
+(* reads of the valid calls stop where the data says: at the terminator or at slen *)
+Theorem C02_reads_sound : forall (A : Type) (fail : nat -> bool) (R : Z -> Prop) (p : prog A) m,
+  reads_ok R p m -> Forall (ev_read_ok R) (rev (wtr (snd (run fail p (w0 m))))).
+Proof. intros A fail R p m H. apply Forall_rev. exact (reads_ok_run fail R p (w0 m) H (Forall_nil _)). Qed.
+Print Assumptions C02_reads_sound.
+Theorem C02_strcpy_s : forall c d dmax s destbos m L, pre_strcpy_s c d dmax s destbos m L -> reads_ok (ext s (L + 1)) (strcpy_s c d dmax s destbos) m.
+Proof. intros c d dmax s destbos m L (Hm & Hd & Hs & Hne & Hu & Hstr). exact (strcpy_s_reads c d dmax s destbos m L Hm Hd Hs Hne Hu Hstr). Qed.
+Print Assumptions C02_strcpy_s.
+Theorem C02_strncpy_s : forall c d dmax s slen destbos srcbos m t, pre_strncpy_s c d dmax s slen destbos srcbos m t -> reads_ok (ext s (Z.min slen (t + 1))) (strncpy_s c d dmax s slen destbos srcbos) m.
+Proof. intros c d dmax s slen destbos srcbos m t (Hm & Hd & Hs & Hne & Hu & Hsl & Hsb & Hsrc). exact (strncpy_s_reads c d dmax s slen destbos srcbos m t Hm Hd Hs Hne Hu Hsl Hsb Hsrc). Qed.
+Print Assumptions C02_strncpy_s.
+Theorem C02_strcat_s : forall c d dmax s destbos m P L, pre_strcat_s c d dmax s destbos m P L -> (d < s -> P < s - d) -> reads_ok (fun a => ext d (P + 1) a \/ ext s (L + 1) a) (strcat_s c d dmax s destbos) m.
+Proof. intros c d dmax s destbos m P L (Hm & Hd & Hs & Hne & Hu & HP & HPd & Hstr) Hg. exact (strcat_s_reads c d dmax s destbos m P L Hm Hd Hs Hne Hu HP HPd Hg Hstr). Qed.
+Print Assumptions C02_strcat_s.
+Theorem C02_strncat_s : forall c d dmax s slen destbos srcbos m P t, pre_strncat_s c d dmax s slen destbos srcbos m P t -> (d < s -> P < s - d) -> reads_ok (fun a => ext d (P + 1) a \/ ext s (Z.min slen (t + 1)) a) (strncat_s c d dmax s slen destbos srcbos) m.
+Proof. intros c d dmax s slen destbos srcbos m P t (Hm & Hd & Hs & Hne & Hu & Hsl & Hsb & HP & HPd & Hsrc) Hg. exact (strncat_s_reads c d dmax s slen destbos srcbos m P t Hm Hd Hs Hne Hu Hsl Hsb HP HPd Hg Hsrc). Qed.
+Print Assumptions C02_strncat_s.
+Theorem C02_strnlen_s : forall c str smax bos, 0 <= smax -> C02_holds (ext str smax) (strnlen_s c str smax bos).
+Proof. intros. apply C02_from_reads. exact (strnlen_s_prog_reads c str smax bos eq_refl H). Qed.
+Print Assumptions C02_strnlen_s.
+Theorem C02_strnlen_s_old_order_refuted : ~ reads_in (ext 100 2) (nlen_loop false 1 2 100 0 BOS_UNKNOWN).
+Proof. exact nlen_loop_unguarded_reads_past. Qed.
+Print Assumptions C02_strnlen_s_old_order_refuted.
+
 Theorem C02_cfg_repo_wf : wf_cfg cfg_repo.
 Proof. exact wf_cfg_repo. Qed.
 Print Assumptions C02_cfg_repo_wf.
